@@ -370,6 +370,8 @@ ASSUMPTIONS = [
     "free(x) exactly at the Free statements (comp_s, not under contract here)",
     "C08: composition of the one-step contract of mem_stmts into blocks of any length is by the loop invariant stated "
     "in contracts/c08_memory.py (meta-argument; cross-checked by the bounded block engine)",
+    "C08: the one-step contract enumerates scope states with at most 3 pending allocations, window chains of length "
+    "<= 2 and one outer scope; the statement itself is arbitrary (schematic)",
     "C08: const-ness of arguments/window structs and the '/' '%' emission guards are not covered by this module",
 ]
 
